@@ -108,6 +108,7 @@ Inductive appop :=
 | OLPut (acct key : N) (isbytes : bool)
 | OLDel (acct key : N)
 | OInner (g : list (N * sbody))          (* itxn_begin .. itxn_submit: (fee, body) from the app account *)
+| OParamSet (field : N) (v : bool)       (* app_params_set: 0 ForeignBoxReads, 1 FamilyBoxAccess (appParamsSetter) *)
 | OFail.
 
 (* an application call: ApplicationID (0 = create), OnCompletion (0 NoOp, 1 OptIn, 2 CloseOut,
@@ -481,6 +482,16 @@ Definition run_op (E : env) (app : N) (clear : bool) (op : appop) : M unit :=
   | OInner g =>
     guard (negb clear) E_APPLY ;;;     (* IsolateClearState: "clear state programs can not issue inner transactions" *)
     guard (match g with [] => false | _ => true end) E_APPLY ;;; perform_group E app g
+  | OParamSet field v =>
+    (* cow_creatables.go appParamsSetter: read, copy, modify, PutAppParams into the current cow *)
+    cr <- m_get_app_creator app ;;
+    creator <- some_or_fail cr ;;
+    p <- m_get_appparams creator app ;;
+    params <- some_or_fail p ;;
+    guard (field <? 2) E_APPLY ;;;
+    m_put_appparams creator app
+      (mkApp (app_gs params) (app_ls params) (app_pages params) (app_sponsor params)
+             (if field =? 0 then v else app_fbr params) (if field =? 1 then v else app_fba params))
   | OFail => fail E_APPLY
   end.
 
@@ -514,7 +525,7 @@ Definition create_application (E : env) (creator : N) (call : appcall) (ctr : N)
   m_put creator (with_app_counts record (schema_add (acct_schema record) (ac_gs call))
                                  (addsat 32 (a_extrapages record) (ac_pages call))
                                  (addsat 64 (a_appparams record) 1) (a_applocals record)) ;;;
-  m_put_appparams creator idx (mkApp (ac_gs call) (ac_ls call) (ac_pages call) 0) ;;;
+  m_put_appparams creator idx (mkApp (ac_gs call) (ac_ls call) (ac_pages call) 0 false false) ;;;
   allocate_app creator idx true (ac_gs call) ;;;
   ret idx.
 
@@ -541,7 +552,7 @@ Definition closeout_application (sender app : N) : M unit :=
 Definition delete_application (E : env) (creator app : N) : M unit :=
   p <- m_get_appparams creator app ;;
   (* GetAppParams' "not found" is ignored by the Go code: zero params *)
-  let params := match p with Some x => x | None => mkApp (0, 0) (0, 0) 0 0 end in
+  let params := match p with Some x => x | None => mkApp (0, 0) (0, 0) 0 0 false false end in
   record <- m_lookup creator ;;
   m_put creator (with_app_counts record (acct_schema record) (a_extrapages record)
                                  (subsat 64 (a_appparams record) 1) (a_applocals record)) ;;;
